@@ -374,7 +374,9 @@ const MSGS: [&str; 6] = ["Hello!", " two  words and a   gap ", "it\\'s \\'", "a=
 
 fn styled(base: &str, s: u8) -> String {
     match s {
-        0 => base.to_string(),
+        // 5: names are plain, but the machine that nobody refers to by name (the first sender)
+        // has no `name` argument at all and is declared last
+        0 | 5 => base.to_string(),
         1 => format!("{base} no 1"),
         2 => format!("{base}\\'s"),
         3 => format!("{base}=x"),
@@ -477,6 +479,10 @@ fn valid(p: &P, a: &Alpha) -> bool {
     }
     if p.proto == 5 && p.kind != PING_PONG && !p.sip {
         // the preconfigured ARP names the sender's own address: the sender must have one
+        return false;
+    }
+    if p.names == 5 && p.kind == PING_PONG {
+        // both ping_pong machines are referred to by name
         return false;
     }
     if p.kind == PING_PONG {
@@ -584,6 +590,10 @@ fn build(p: &P) -> (Tree, Vec<Flow>) {
     let machine = |idx: usize, base: &str, count: Option<&str>, nets: Vec<Args>, app: Args| -> TMachine {
         let (auto, protos) = protos(idx);
         let mut args = vec![a("name", &styled(base, p.names))];
+        if p.names == 5 && base == "sender" {
+            // names are optional: nothing refers to the sender by name
+            args.clear();
+        }
         if let Some(c) = count {
             args.push(a("count", c));
         }
@@ -645,6 +655,10 @@ fn build(p: &P) -> (Tree, Vec<Flow>) {
                 times: senders,
                 what: "sender -> capture".into(),
             }];
+            let mut ms = ms;
+            if p.names == 5 {
+                ms.reverse();
+            }
             (Tree { nets, machines: ms }, flows)
         }
         SEND_FWD_CAP => {
@@ -680,6 +694,10 @@ fn build(p: &P) -> (Tree, Vec<Flow>) {
                     what: "forward -> capture".into(),
                 },
             ];
+            let mut ms = ms;
+            if p.names == 5 {
+                ms.reverse();
+            }
             (Tree { nets, machines: ms }, flows)
         }
         _ => {
@@ -734,7 +752,7 @@ fn alpha(tier: &str, part: &str) -> Alpha {
         wires: vec![0, 1, 2, 3],
         protos: vec![0, 1, 2, 3, 4],
         msgs: vec![0, 1, 2, 3, 4],
-        names: vec![0, 1, 2, 3, 4],
+        names: vec![0, 1, 2, 3, 4, 5],
         caps: vec![0, 1, 2],
         cnts: vec![0, 1, 2],
         sips: vec![false, true],
@@ -793,7 +811,7 @@ fn alpha(tier: &str, part: &str) -> Alpha {
         },
         ("run-default", true) => Alpha {
             pools: vec![2],
-            names: vec![0, 2, 4],
+            names: vec![0, 2, 5],
             cnts: vec![0, 2],
             ports: vec![0],
             ..all
@@ -802,7 +820,7 @@ fn alpha(tier: &str, part: &str) -> Alpha {
         // chosen to stay below 5 GB of resident memory
         ("run-default", false) => Alpha {
             pools: vec![0, 2],
-            names: vec![0, 2, 4],
+            names: vec![0, 2, 4, 5],
             ports: vec![0],
             ..all
         },
@@ -813,7 +831,7 @@ fn alpha(tier: &str, part: &str) -> Alpha {
             wires: vec![0],
             protos: vec![0, 1, 2],
             msgs: vec![0],
-            names: vec![0],
+            names: vec![0, 5],
             caps: vec![1],
             cnts: vec![0, 2],
             sips: vec![false],
@@ -824,7 +842,7 @@ fn alpha(tier: &str, part: &str) -> Alpha {
             pools: vec![0],
             wires: vec![0, 3],
             msgs: vec![0],
-            names: vec![0],
+            names: vec![0, 5],
             caps: vec![1, 2],
             cnts: vec![0, 2],
             sips: vec![false],
